@@ -262,6 +262,22 @@ def decoder_clause(world, a):
                 ok_edges |= set(sw.get(0, []))
         outside = set(Rd.g.succ) - ln
         dominated = bool(ok_edges) and pe.node not in Rd.g.reachable([lp], avoid_edges=ok_edges, avoid_nodes=outside)
+        if not dominated:
+            # the lookup's result may be consumed by combinators (`.ok().map(|name| value.parse() ..)`) instead of a match: on the
+            # abstract reachability graph the states that left the lookup through its Err return must not reach the parse
+            # within the iteration, and the lookup must come first
+            err_rets, ok_rets = set(), set()
+            for fe in froms:
+                if fe.node in ln:
+                    for fid_ in ed.frame_bodies:
+                        if len(fid_) == len(fe.ctx) + 1 and fid_[:len(fe.ctx)] == fe.ctx and fid_[-1][0] == "call" and fid_[-1][3] == fe.bb and \
+                                str(fid_[-1][1]).endswith("as std::str::FromStr>::from_str"):
+                            err_rets |= set(Rd.ret_nodes(fid_, 1))
+                            ok_rets |= set(Rd.ret_nodes(fid_, 0))
+            if err_rets and ok_rets:
+                unrec = Rd.g.reachable(sorted(err_rets, key=repr), avoid_nodes=set([lp]) | outside)
+                first = pe.node not in Rd.g.reachable([lp], avoid_nodes=set(fe.node for fe in froms if fe.node in ln) | outside)
+                dominated = pe.node not in unrec and first and pe.node in Rd.g.reachable(sorted(ok_rets, key=repr), avoid_nodes=set([lp]) | outside)
         a.ob(dominated, "unknown-option-value-parsed in %s" % short(pe.body),
              "the value of an option is parsed as a number before (or without) its name having been recognised: an unknown option with a non-numeric "
              "value makes the whole request undecodable instead of being ignored", pe.loc,
